@@ -7,4 +7,14 @@ TEXT = {
   "note": "Trusted: Coq kernel+VM; the hand model of auth caveats/DischargeRequest tied to the code by the per-run correspondence (class-set observables); time.Now() inside DischargeRequest keeps the exact lifetime boundary out of the correspondence (10 s margin) - the boundary is settled by the theorem on the model's comparison, whose shape (>) the margin cases cannot distinguish from >=.",
   "technique": "Coq proof over executable model + in-Coq differential correspondence",
  },
+ "C03": {
+  "text": "Coq theorems (Properties/C03.v): validate clears iff every request is well-formed and every non-attestation caveat clears every request (validate_iff), the error class set is the union over all failing items so none is masked (validate_err_union), invariance under permutation of caveats and requests, one denial / one malformed request suffices, unregistered/3P/bind/attestation caveats and caveats lacking the information they need always deny. Proved for all caveat lists (arbitrary nesting) and request lists; model compared with CaveatSet.Validate / Prohibits on ~2k (quick) / ~40k (thorough) cases per run.",
+  "note": "Trusted: Coq kernel+VM; hand model of Prohibits/Validate/merr.Append (coq/Model/Prohibits.v) tied to the code by the per-run correspondence on class-set observables plus an implementation-side oracle; error messages are not modelled.",
+  "technique": "Coq proof over executable model + in-Coq differential correspondence",
+ },
+ "C10": {
+  "text": "Coq theorems (Properties/C10.v): one iff per Fly.io caveat type against its documented rule (organization, the eight resource-set caveats as instances of the generic resource set, mutations, commands incl. exact/prefix, roles against the MemberFeatures table regenerated from the source, IsMember, FromMachine, FlySrc with empty-field wildcards, validity window on Go's wrapped time representation) and Access.Validate = the documented well-formedness predicate (fa_wf) for every request; model compared with the code on all 2^10 presence patterns and ~7k (quick) / ~60k (thorough) rule cases per run.",
+  "note": "Trusted: Coq kernel+VM; hand model of flyio caveats/Access tied to the code by the per-run correspondence; translator cmd/facts for MemberFeatures and constants; the harness replaces flyio.Access.Now() by an input clock (embedding), time.Unix wrap-around is modelled explicitly (wrap64).",
+  "technique": "Coq proof over executable model + in-Coq differential correspondence",
+ },
 }
